@@ -49,7 +49,12 @@ def main():
                 return [("reply", dnslib.build_reply(q, rcode=3), 0)]
             up = bytes.fromhex(c["upstream_hex"])
             if proto == "udp" and len(up) > 4000:
-                # what a real server does with erbium's advertised 4096: truncate, client retries over TCP
+                # what a real server does with erbium's advertised 4096: truncate (to nothing, or to the whole records
+                # that fit), client retries over TCP
+                if c.get("upstream_udp_hex"):
+                    part = bytearray(bytes.fromhex(c["upstream_udp_hex"]))
+                    part[0:2] = q[0:2]
+                    return [("reply", bytes(part), 0)]
                 return [("reply", dnslib.build_reply(q, tc=True), 0)]
             return [("reply", up, 0)]
 
@@ -63,15 +68,16 @@ def main():
         events = []
         elock = threading.Lock()
 
-        def ask(c, repeat=False, t_first=None):
+        def ask(c, repeat=False, t_first=None, transport=None):
             q = bytes.fromhex(c["query_hex"])
-            if c["transport"] == "tcp":
+            transport = transport or c["transport"]
+            if transport == "tcp":
                 r, err = dnslib.tcp_query(("127.0.0.53", 53), q, timeout=20.0)
             else:
                 rs = dnslib.udp_query(("127.0.0.53", 53), q, timeout=20.0)
                 r, err = (rs[0][0], None) if rs else (None, "no datagram within 20 s")
             with elock:
-                events.append({"case": c["case"], "transport": c["transport"], "response_hex": r.hex() if r is not None else None,
+                events.append({"case": c["case"], "transport": transport, "response_hex": r.hex() if r is not None else None,
                                "error": err, "repeat": repeat, "elapsed_s": (time.monotonic() - t_first) if t_first else 0.0})
 
         def one(c):
@@ -79,7 +85,7 @@ def main():
             ask(c)
             if c.get("repeat_after_s"):
                 time.sleep(c["repeat_after_s"])
-                ask(c, repeat=True, t_first=t0)
+                ask(c, repeat=True, t_first=t0, transport=c.get("repeat_transport"))
 
         with ThreadPoolExecutor(max_workers=32) as ex:
             list(ex.map(one, cases))
